@@ -28,11 +28,22 @@ ELSVecs ==
      SB("NewEncryptedLeaseSet", st, [off |-> FALSE, tst |-> 7, flags |-> f, innerlen |-> n, published |-> T4, expires |-> 600, offexpires |-> T4], 64, << 5 >>, 500 + st + f + n))
   \o Cross3(<< 11, 7 >>, << 7, 11 >>, << 1, 3 >>, LAMBDA st, tst, f :
      SB("NewEncryptedLeaseSet", st, [off |-> TRUE, tst |-> tst, flags |-> f, innerlen |-> 100, published |-> T4, expires |-> 600, offexpires |-> << 101, 36, 250, 0 >>], 64, << 5 >>, 600 + st + tst + f))
+\* single-defect variants of the EncryptedLeaseSet constructor (C14): flag/offline mismatch both ways, reserved bits, zero expiry,
+\* inner data too short, blinded key of the wrong length
+ELSM(off, tst, flags, innerlen, expires, keydelta) == [off |-> off, tst |-> tst, flags |-> flags, innerlen |-> innerlen, published |-> T4, expires |-> expires,
+                                                     offexpires |-> << 101, 36, 250, 0 >>, keydelta |-> keydelta]
+ELSDefectVecs ==
+  SeqMap(LAMBDA f : SB("NewEncryptedLeaseSet", 11, ELSM(FALSE, 7, f, 100, 600, 0), 64, << 5 >>, 650 + f), << 1, 3 >>)
+  \o SeqMap(LAMBDA f : SB("NewEncryptedLeaseSet", 11, ELSM(TRUE, 7, f, 100, 600, 0), 64, << 5 >>, 660 + f), << 0, 2 >>)
+  \o SeqMap(LAMBDA f : SB("NewEncryptedLeaseSet", 7, ELSM(FALSE, 7, f, 100, 600, 0), 64, << 5 >>, 670), << 4, 8, 32768, 65534 >>)
+  \o << SB("NewEncryptedLeaseSet", 11, ELSM(FALSE, 7, 0, 100, 0, 0), 64, << 5 >>, 680), SB("NewEncryptedLeaseSet", 11, ELSM(TRUE, 7, 1, 100, 0, 0), 64, << 5 >>, 681) >>
+  \o SeqMap(LAMBDA n : SB("NewEncryptedLeaseSet", 11, ELSM(FALSE, 7, 0, n, 600, 0), 64, << 5 >>, 690 + n), << 0, 1, 60 >>)
+  \o SeqMap(LAMBDA d : SB("NewEncryptedLeaseSet", 11, ELSM(FALSE, 7, 0, 100, 600, d), 64, << 5 >>, 695), << -1, 1 >>)
 LS2Vecs ==
   [k \in 1..Len(MapSets) |-> SB("NewLeaseSet2", 7, [ct |-> 4, pairs |-> MapSets[k], off |-> FALSE, tst |-> 7, flags |-> 0, nkeys |-> 1, nleases |-> (k % 3) + 1, published |-> T4, expires |-> 600, offexpires |-> T4], 64, << 3 >>, 700 + k)]
   \o Cross2(<< 7, 11 >>, << 7, 11 >>, LAMBDA st, tst : SB("NewLeaseSet2", st, [ct |-> 4, pairs |-> MapSets[3], off |-> TRUE, tst |-> tst, flags |-> 1, nkeys |-> 2, nleases |-> 2, published |-> T4, expires |-> 600, offexpires |-> << 101, 36, 250, 0 >>], 64, << 3 >>, 800 + st + tst))
   \o SeqMap(LAMBDA f : SB("NewLeaseSet2", 11, [ct |-> 4, pairs |-> MapSets[1], off |-> FALSE, tst |-> 7, flags |-> f, nkeys |-> 1, nleases |-> 16, published |-> T4, expires |-> 65535, offexpires |-> T4], 64, << 3 >>, 900 + f), << 0, 2, 4, 6 >>)
-Vecs == RIVecs \o LSVecs \o OffVecs \o ELSVecs \o LS2Vecs
+Vecs == RIVecs \o LSVecs \o OffVecs \o ELSVecs \o ELSDefectVecs \o LS2Vecs
 VARIABLE done
 Init == done = FALSE
 Next == ~done /\ ndJsonSerialize(OutFile, Vecs) /\ PrintT(<< "GENERATED", Len(Vecs) >>) /\ done' = TRUE
